@@ -549,3 +549,9 @@ add("C09", "benign: rename instance local", QUERY,
     "        inst = maybe_copy(self, copy)\n        if not isinstance(alias, Expr):\n            alias = TableAlias(this=to_identifier(alias)) if alias else None\n\n        return Subquery(this=inst, alias=alias)", "silent")
 add("C09", "benign: copy=False on a freshly built node", "sqlglot/schema.py",
     "def ensure_schema(\n", "def _verif_ok() -> exp.Expr:\n    node = exp.Table(this=exp.to_identifier(\"t\"))\n    return node.transform(lambda n: n, copy=False)\n\n\ndef ensure_schema(\n", "silent")
+add("C05", "revert PRQL unbound-local fix", "sqlglot/parsers/prql.py",
+    "            self.raise_error(f\"Unsupported aggregation function {name}\")\n            return None\n",
+    "            self.raise_error(f\"Unsupported aggregation function {name}\")\n", "C05.h")
+add("C05", "local bound only on the matching branch and read after a non-raising error", P,
+    "    def _parse_command(self) -> exp.Command:\n        self._warn_unsupported()",
+    "    def _parse_command(self) -> exp.Command:\n        if self._curr:\n            verif_tok = self._curr\n        else:\n            self.raise_error(\"no token\")\n        self._prev_comments = verif_tok.comments\n        self._warn_unsupported()", "C05.h")
